@@ -295,37 +295,75 @@ func c08Finished(c *Ctx) {
 			c.Violated(rule, fname(f), "the expected verify_data is computed", "no call to finishedHash."+wantSum, f.Pos())
 			continue
 		}
-		var cmpAtoms, lenAtoms []Atom
-		for _, ifi := range ifsOf(f) {
-			bo, ok := ifi.Cond.(*ssa.BinOp)
-			if !ok {
-				continue
+		// Decided semantically, whatever the shape of the code (a branch on the comparison, a named boolean, a De Morgan
+		// variant): ASSUME the constant-time comparison of the expected verify_data with the received one does not
+		// yield 1 — then no successful return may be reachable from the entry. Likewise for "the lengths differ".
+		isCmp := func(v ssa.Value) bool {
+			call, ok := v.(*ssa.Call)
+			if !ok || calleeID(&call.Call) != "crypto/subtle.ConstantTimeCompare" || len(call.Call.Args) != 2 {
+				return false
 			}
-			if call, ok := bo.X.(*ssa.Call); ok && calleeID(&call.Call) == "crypto/subtle.ConstantTimeCompare" {
-				if k, isK := constInt(bo.Y); isK && k == 1 && (call.Call.Args[0] == ssa.Value(sum) || call.Call.Args[1] == ssa.Value(sum)) {
-					other := call.Call.Args[0]
-					if other == ssa.Value(sum) {
-						other = call.Call.Args[1]
-					}
-					if ld, ok := other.(*ssa.UnOp); ok {
-						if fa, ok := ld.X.(*ssa.FieldAddr); ok && fieldName(fa.X.Type(), fa.Field) == "verifyData" {
-							if bo.Op == token.NEQ {
-								cmpAtoms = append(cmpAtoms, Atom{ifi, 1, "verify_data equal"})
-							} else if bo.Op == token.EQL {
-								cmpAtoms = append(cmpAtoms, Atom{ifi, 0, "verify_data equal"})
-							}
-						}
-					}
+			if call.Call.Args[0] != ssa.Value(sum) && call.Call.Args[1] != ssa.Value(sum) {
+				return false
+			}
+			other := call.Call.Args[0]
+			if other == ssa.Value(sum) {
+				other = call.Call.Args[1]
+			}
+			if ld, ok := other.(*ssa.UnOp); ok {
+				if fa, ok := ld.X.(*ssa.FieldAddr); ok && fieldName(fa.X.Type(), fa.Field) == "verifyData" {
+					return true
 				}
 			}
-			if isLenOf(bo.X, func(v ssa.Value) bool { return v == ssa.Value(sum) }) && bo.Op == token.NEQ {
-				lenAtoms = append(lenAtoms, Atom{ifi, 1, "same length"})
-			}
+			return false
 		}
-		g := evalGuard(c.P, f, cmpAtoms, spec, nil)
-		c.Check(g.OK, rule, fname(f), "verify_data mismatch aborts and cannot be bypassed (constant-time comparison)", g.Why, "a peer that does not know the master secret or saw a different transcript must be rejected: "+g.Why, sum.Pos())
-		g2 := evalReject(c.P, f, lenAtoms, spec)
-		c.Check(g2.OK, rule, fname(f), "verify_data of another length aborts", g2.Why, "ConstantTimeCompare returns 0 for different lengths only if both are compared: "+g2.Why, sum.Pos())
+		nCmp, nLen := 0, 0
+		assumeCmpFails := func(v ssa.Value) (bool, bool) {
+			bo, ok := v.(*ssa.BinOp)
+			if !ok || !isCmp(bo.X) {
+				return false, false
+			}
+			if k, isK := constInt(bo.Y); !isK || k != 1 {
+				return false, false
+			}
+			nCmp++
+			switch bo.Op {
+			case token.EQL:
+				return false, true // compare == 1 is false
+			case token.NEQ:
+				return true, true
+			}
+			return false, false
+		}
+		assumeLenDiffers := func(v ssa.Value) (bool, bool) {
+			bo, ok := v.(*ssa.BinOp)
+			if !ok {
+				return false, false
+			}
+			isSumLen := func(x ssa.Value) bool { return isLenOf(x, func(y ssa.Value) bool { return y == ssa.Value(sum) }) }
+			if !isSumLen(bo.X) && !isSumLen(bo.Y) {
+				return false, false
+			}
+			nLen++
+			switch bo.Op {
+			case token.EQL:
+				return false, true
+			case token.NEQ:
+				return true, true
+			}
+			return false, false
+		}
+		check := func(assume func(ssa.Value) (bool, bool)) bool {
+			saved := condEval
+			condEval = assume
+			defer func() { condEval = saved }()
+			r, _ := canReachSuccess(f.Blocks[0], nil, successExits(f, spec), nil)
+			return !r
+		}
+		okCmp := check(assumeCmpFails)
+		c.Check(okCmp && nCmp > 0, rule, fname(f), "verify_data mismatch aborts and cannot be bypassed (constant-time comparison)", "", fmt.Sprintf("assuming subtle.ConstantTimeCompare(expected, received) does not return 1, a successful return is still reachable (comparisons found: %d): a peer that does not know the master secret or saw a different transcript is accepted", nCmp), sum.Pos())
+		okLen := check(assumeLenDiffers)
+		c.Check(okLen && nLen > 0, rule, fname(f), "verify_data of another length aborts", "", fmt.Sprintf("assuming the received verify_data has another length than the expected one, a successful return is still reachable (length comparisons found: %d)", nLen), sum.Pos())
 		// the sum is over the master secret
 		names := map[ssa.Value]string{}
 		for _, p := range f.Params {
@@ -432,7 +470,18 @@ func c08ClientAuth(c *Ctx) {
 				continue
 			}
 			c.Evals++
-			r, _ := canReachSuccess(emptyEdges[0].to, &emptyEdges[0], successExits(f, spec), fieldValueCut(f, "ClientAuth", k))
+			// from the entry, with the policy fixed and the Certificate list empty (the non-empty edge removed): the
+			// order in which the code tests policy and emptiness does not matter
+			var r bool
+			assumeFieldValue("ClientAuth", k, func() {
+				cutE := fieldValueCut(f, "ClientAuth", k)
+				for _, sblk := range emptyEdges[0].from.Succs {
+					if sblk != emptyEdges[0].to {
+						cutE[edge{emptyEdges[0].from, sblk}] = true
+					}
+				}
+				r, _ = canReachSuccess(f.Blocks[0], nil, successExits(f, spec), cutE)
+			})
 			c.Check(!r, rule, fname(f), "an empty client certificate list is rejected under "+pol, "", "with ClientAuth == "+pol+" a client that sends no certificate can still reach the successful end of the handshake", f.Pos())
 			// ... and the handshake cannot succeed without a non-empty Certificate message having been seen at all
 			// (a client that skips the Certificate message must not get past this point either)
@@ -444,7 +493,8 @@ func c08ClientAuth(c *Ctx) {
 					cut[edge{eb, sblk}] = true
 				}
 			}
-			r2, _ := canReachSuccess(f.Blocks[0], nil, successExits(f, spec), cut)
+			var r2 bool
+			assumeFieldValue("ClientAuth", k, func() { r2, _ = canReachSuccess(f.Blocks[0], nil, successExits(f, spec), cut) })
 			c.Check(!r2, rule, fname(f), "under "+pol+" the handshake succeeds only after a non-empty Certificate message", "", "with ClientAuth == "+pol+" the successful end of the handshake is reachable without the Certificate message having been received and found non-empty (e.g. the message is treated as optional): a client without any certificate is accepted", f.Pos())
 		}
 		// CertificateVerify: with a client certificate, the signature check cannot be bypassed
@@ -762,6 +812,62 @@ func emptyCertListEdges(f *ssa.Function) []edge {
 		}
 	}
 	return out
+}
+
+// assumeFieldValue: evaluate comparisons between a load of the field and a constant under "field == k" wherever a
+// boolean value is needed (branch conditions and boolean phi inputs), for the duration of fn
+func assumeFieldValue(field string, k int64, fn func()) {
+	saved := condEval
+	isField := func(v ssa.Value) bool {
+		ld, ok := v.(*ssa.UnOp)
+		if !ok || ld.Op != token.MUL {
+			return false
+		}
+		fa, ok := ld.X.(*ssa.FieldAddr)
+		return ok && fieldName(fa.X.Type(), fa.Field) == field
+	}
+	condEval = func(v ssa.Value) (bool, bool) {
+		bo, ok := v.(*ssa.BinOp)
+		if !ok {
+			return false, false
+		}
+		var kc int64
+		op := bo.Op
+		if c2, isK := constInt(bo.Y); isK && isField(bo.X) {
+			kc = c2
+		} else if c1, isK := constInt(bo.X); isK && isField(bo.Y) {
+			kc = c1
+			switch op {
+			case token.LSS:
+				op = token.GTR
+			case token.LEQ:
+				op = token.GEQ
+			case token.GTR:
+				op = token.LSS
+			case token.GEQ:
+				op = token.LEQ
+			}
+		} else {
+			return false, false
+		}
+		switch op {
+		case token.EQL:
+			return k == kc, true
+		case token.NEQ:
+			return k != kc, true
+		case token.LSS:
+			return k < kc, true
+		case token.LEQ:
+			return k <= kc, true
+		case token.GTR:
+			return k > kc, true
+		case token.GEQ:
+			return k >= kc, true
+		}
+		return false, false
+	}
+	defer func() { condEval = saved }()
+	fn()
 }
 
 // fieldValueCut: the CFG edges that cannot be taken when the (configuration) field named `field` has the value k:
